@@ -73,16 +73,18 @@ def order_valuation(order):
     return val
 
 
-def run_block(stmts, valuation, visit):
+def run_block(stmts, valuation, visit, visit_test=None):
     """Symbolically run a statement list under a *complete* valuation of its tests: every `if` must evaluate to True/False
     (else Undecided).  `visit(stmt)` is called for every simple statement executed.  Loops are not entered (visit gets the
     loop statement).  Returns one of 'fall', 'break', 'continue', 'return', 'raise'."""
     for st in stmts:
         if isinstance(st, ast.If):
+            if visit_test is not None:
+                visit_test(st.test, valuation)
             v = eval_guard(st.test, valuation)
             if v is None:
                 raise Undecided('test %s not decided by the enumerated domain' % norm(st.test))
-            out = run_block(st.body if v else st.orelse, valuation, visit)
+            out = run_block(st.body if v else st.orelse, valuation, visit, visit_test)
             if out != 'fall':
                 return out
         elif isinstance(st, ast.Break):
@@ -123,3 +125,36 @@ def merge_valuations(*vals):
                 return r
         return None
     return val
+
+
+def region_table(test, x, lo, hi, extra=None):
+    """Truth table of `test` over the five regions of x against the closed range [lo, hi] (texts of the three terms)."""
+    out = {}
+    for name, rank in (('<lo', 0), ('=lo', 1), ('inside', 2), ('=hi', 3), ('>hi', 4)):
+        order = {x: rank, lo: 1, hi: 3}
+        if extra:
+            order.update(extra)
+        out[name] = eval_guard(test, order_valuation(order))
+    return out
+
+
+def evaluated_atoms(test, valuation):
+    """Atoms of `test` that Python would actually evaluate under `valuation` (short-circuit aware)."""
+    out = []
+
+    def go(t):
+        if isinstance(t, ast.BoolOp):
+            for v in t.values:
+                r = go(v)
+                if isinstance(t.op, ast.And) and r is False:
+                    return False
+                if isinstance(t.op, ast.Or) and r is True:
+                    return True
+            return eval_guard(t, valuation)
+        if isinstance(t, ast.UnaryOp) and isinstance(t.op, ast.Not):
+            r = go(t.operand)
+            return None if r is None else (not r)
+        out.append(t)
+        return eval_guard(t, valuation)
+    go(test)
+    return out
